@@ -85,7 +85,7 @@ def run(ck):
     if ck.replay_case:
         return c15.replay(ck, want)
     c15.model_check(ck)
-    stats = c15.campaign(ck, want, plan_trace=False, sizes=ck.pick((60, 120, 100000), (3000, 4000, 4000)),
+    stats = c15.campaign(ck, want, plan_trace=False, sizes=ck.pick((30, 90, 100000), (3000, 4000, 4000)),
                          styles=("robust", "friendly", "robust", "hostile", "blocky"), seed=16,
                          tail=lambda batch: cross_process_determinism(
                              ck, ck.pick(24, 500), batch, [w for w in c15.SPECIAL_WORLDS if w.get("fam") == "session"]))
